@@ -28,6 +28,7 @@ RULE = ('Layouts: flat files (.dat/.bin/.raw/.mda, header offset 0/1/7/16) for E
         '(layout, item, cols) on a layout with >= 2 parts/chunks where the item touches a '
         'boundary-adjacent row, has a negative bound or spans >= 2 parts.')
 RULE += " Added classes: slice bounds and integers given as NumPy scalars of every integer dtype (int16/uint16/int64/uint64); flat readers constructed from relative paths and read after a chdir into a directory holding same-named decoy files; every k-th returned block is overwritten in place by the caller before the next read (results must be the caller's own)."
+RULE += ' Round 5: part files reached through symbolic links; recordings of 2000-3000 rows with index arrays of >= 1024 entries covering the first / last row of every file; a second selector on top of the lazy channel selection, reader[:, c1][rows, c2].'
 EXHAUSTIVE = {'quick': True, 'thorough': True}
 EXHAUSTIVE_SCOPE = {'quick': 'n <= 6, all compositions; dtype/channel/offset axes rotate (not crossed)',
                     'thorough': 'n <= 9, all compositions x all dtypes; random larger layouts sampled'}
